@@ -77,14 +77,15 @@ func SMTP(options ...services.ServicerFunc) services.Servicer {
 
 	s.srv.Banner = banner.String()
 
-	handler := HandleFunc(func(msg Message) error {
-		s.receiveChan <- msg
-		return nil
-	})
-
-	s.srv.Handler = handler
-
 	return s
+}
+
+// chanHandler hands the messages of one connection to that connection's event loop
+type chanHandler chan Message
+
+func (h chanHandler) Serve(msg Message) error {
+	h <- msg
+	return nil
 }
 
 type bannerData struct {
@@ -122,11 +123,20 @@ func (s *Service) Handle(ctx context.Context, conn net.Conn) error {
 
 	rcvLine := make(chan string)
 
+	// messages and lines of this connection only: a channel shared by all connections lets the
+	// event loop of another (or an earlier) connection report this connection's mail as its own
+	rcvMsg := make(chan Message)
+
+	done := make(chan struct{})
+	defer close(done)
+
 	// Wait for a message and send it into the eventbus
 	go func() {
 		for {
 			select {
-			case message := <-s.receiveChan:
+			case <-done:
+				return
+			case message := <-rcvMsg:
 				header := []event.Option{}
 
 				for key, values := range message.Header {
@@ -165,7 +175,10 @@ func (s *Service) Handle(ctx context.Context, conn net.Conn) error {
 	}()
 
 	//Create new smtp server connection
-	c := s.srv.newConn(conn, rcvLine)
+	srv := *s.srv
+	srv.Handler = chanHandler(rcvMsg)
+
+	c := srv.newConn(conn, rcvLine)
 	// Start server loop
 	c.serve()
 	return nil
